@@ -34,7 +34,15 @@ def gen_case(rng, tier, k):
                                            "rawcands-seeds-sets", "rawcands-sets", "rawcands-seeds-sets", "rawcands-sets",
                                            "seeds-sets-ro", "rawcands-seeds-sets-ro", "sets-ro"])]
           for _ in range(rng.randint(2, 6))]
-    return {"bnet": bnet, "ops": prefix, "queries": qs, "fallback": rng.random() < 0.7}
+    case = {"bnet": bnet, "ops": prefix, "queries": qs, "fallback": rng.random() < 0.7}
+    if rng.random() < 0.2:
+        # resource limits that make candidate searches fail (RuntimeError) inside and outside block expansion; whatever
+        # is cached afterwards must still be right, and the symbolic fallback must agree with it
+        case["cfg"] = {"attractor_candidates_limit": rng.choice([1, 1, 2, 3]),
+                       "retained_set_optimization_threshold": rng.choice([0, 0, 1, 2])}
+        case["ops"] = prefix[:2] + [["blockx", True, None, rng.random() < 0.5, rng.random() < 0.3]]
+        case["fallback"] = True
+    return case
 
 
 def run_case(case):
